@@ -260,6 +260,26 @@ def _worker(tier, is_canary):
                                    same, backend="bounded-evaluation"))
         if not same:
             out["witness"]["write_trainables:three make_trainable calls (channel parameter, per-branch radius with unequal groups, initial state) are written to exactly their rows"] = {"group_sizes": [1, 2, 3]}
+        # ---- integrate's own init path (build_init_and_step_fn.init_fn, real code, Module stubbed by uninterpreted functions):
+        # BOTH the parameters and the initial states are computed from the trainables AND the data_set entries - so a data_set
+        # of an initial state (v, a gate, a synaptic state) reaches the simulation like set() does (seeded change C10_d)
+        from .. import ufterm as U
+        from ..ufterm import T
+        from . import e4
+        for label, ps in (("data_set of an initial state (v)", [{"key": "v", "val": np.asarray([[-55.0]]), "indices": np.asarray([[3]])}]),
+                          ("data_set of a gate and of a parameter", [{"key": "HH_m", "val": np.asarray([[0.3]]), "indices": np.asarray([[0, 1]])},
+                                                                     {"key": "radius", "val": np.asarray([[2.0]]), "indices": np.asarray([[4]])}])):
+            sc = e4.Scenario([(1, 0, "v"), (0, 1, "HH_m")], T_len=0, t_max=0.05)
+            o = e4.run_integrate(sc, param_state=ps, params=[])
+            if "exception" in o:
+                out["results"].append(_res(f"integrate init path:{label} accepted", False, o["exception"], backend="euf"))
+                continue
+            P = T("P", U._freeze(ps), sc.vs)
+            S0 = T("S0", U._freeze(ps), P, sc.dt)
+            states = U.spec_states(S0, sc.nsteps(), sc.ext_at, sc.dt, P, sc.solver, sc.vs)
+            ok, d = e4.recs_match(o["recs"], sc, states)
+            out["results"].append(_res(f"integrate init path:{label} - parameters and initial states are both computed from trainables + param_state (recorded terms start from S0(pstate, P(pstate)))", ok, d, backend="euf"))
+            out["results"].append(_res(f"integrate init path:{label} - the caller's param_state list is not extended or rebound", len(ps) == (1 if "v)" in label else 2), backend="structural"))
         # ---- write_trainables after a HISTORY: the tables were converted to arrays earlier (to_jax / a simulation), then changed
         # with set() in rows that no trainable selects; what is written must be the current tables plus the trainables
         # (seeded change C10_c: a stale array cache)
